@@ -413,7 +413,7 @@ def run_c11(ctx):
     json.dump(scns, open(sp, "w"))
     hh = hashlib.sha1(open(os.path.join(os.path.dirname(os.path.abspath(__file__)), "msched.hpp"), "rb").read()).hexdigest()[:12]
     bargs = dict(name="mutex_driver", srcs=["engines/mutex/driver.cpp"], lib=LIB, defs=["MSCHED_HDR_HASH=0x" + hh])
-    exp = [s for s in scns if s["name"] in (("B", "J", "I") if quick else ("A", "B", "G", "I", "J", "Lq", "Q"))]
+    exp = [s for s in scns if s["name"] in (("B", "I") if quick else ("A", "B", "G", "I", "J", "Lq", "Q"))]
     spe = os.path.join(ctx.work, "scenarios_c11e.json")
     json.dump(exp, open(spe, "w"))
     edges = os.path.join(ctx.work, "edges_c11.ndjson")
